@@ -47,6 +47,8 @@ def hashes(repo):
 
 
 def ensure_rust(repo):
+    if not os.path.exists(os.path.join(repo, "Cargo.toml")):
+        return []  # python-only scratch copy (tools/mkscratch.sh): extensions are symlinks
     try:
         with open(os.path.join(VERIF, "rust_baseline.json")) as f:
             baseline = json.load(f)
